@@ -8,4 +8,4 @@ def run(tier):
         "function called with a value of every member type of its union parameter, break/continue/return at every "
         "leaf (at depth >= 2 one of the two sub-positions is a leaf); distinct by source text; compared: "
         "the four call results and the marker log",
-        ["quick: every 3rd body of depth 2; thorough: all of depth 2 and a sample of depth 3"])
+        ["quick: every 3rd body of depth 2; thorough: all of depth 2 and a sample of depth 3"], extra_thorough=("c12deep",), gen=3000)
